@@ -84,6 +84,14 @@ CHECKS = {
         text="12 configurations (2-3 servers x retry_attempts 0/1/2 x ignore_exc) with retry_timeout=1, dead_timeout=6; events: operation (get, get_many, set_many; thorough also set, delete) on a key owned by server i, clock advance 1/2/7, server i starts failing (refused, reset; thorough also timeout) or recovers; BFS to depth 7 (2 servers) / 5 (3 servers), thorough 9 / 7. On every transition: contacts to a failing server <=2 per retry_timeout window and <= retry_attempts+2 per dead_timeout window, no eviction by a single failure when retries are configured, a never-failed owner is always contacted and answers correctly, keys of an evicted server are served inside the rotation, only the failing server's own error or 'all servers down' escapes (nothing with ignore_exc); from every new state: all healthy + two dead_timeout periods of traffic restores rotation and placement.",
         note=TB + "Histories beyond the depth cap are not explored (no fixpoint: the monitors' contact ages keep the state space growing); failing = network-level failure.",
     ),
+    "C11": dict(
+        engine="E2-explicit-state-bfs",
+        level="model_checking",
+        technique="exhaustive enumeration of node sets x insertion orders plus explicit-state BFS over add/remove histories of a real RendezvousHash (queried all along), compared with an independent reference rule; sub-process digests across PYTHONHASHSEED",
+        design_ref="DESIGN.md section 3 / C11",
+        text="(a) all 255 node sets from an 8-name universe (incl. a pair of names whose murmur3 scores tie for every key) x all insertion orders for sets of <=5 (thorough 6) nodes x a structured key corpus: identical across orders and equal to the reference rule; (b) BFS over add/remove histories on 5 nodes to depth 6 (thorough 8), three hash functions (murmur3, constant, parity): placement equals the rule for the node set however reached, removal moves only the removed node's keys, addition moves keys only onto the new node; (c) tie-forcing hashes x all orders; (d) HashClient over simnet: contacted server == rule, 6 pairs of equivalent address spellings place identically, duplicates do not enter the rotation twice; (e) digests in sub-processes under 5-8 PYTHONHASHSEED values; (f) every node owns 0.5x-1.5x its fair share.",
+        note="Trusted: vmc/ref/placement.py (independent MurmurHash3 + rendezvous rule). Node sets beyond 8 names and permutations beyond 6 nodes are not enumerated.",
+    ),
 }
 
 PENDING = "check not built yet in this session; planned engine and oracle are in DESIGN.md section 3"
@@ -91,7 +99,7 @@ NOT_APPLICABLE = {f"C{i:02d}": PENDING for i in range(1, 21)}
 
 ENGINES = [
     {"name": "E2-explicit-state-bfs", "path": "checks/c09.py (pattern shared by C05, C11, C13, C19)",
-     "serves_properties": ["C05", "C09", "C13"],
+     "serves_properties": ["C05", "C09", "C11", "C13"],
      "kind_free_text": "explicit-state BFS: a state is the event history reaching it, rebuilt on fresh real objects; canonical form de-duplicates; every transition runs the implementation"},
     {"name": "input-enumerator", "path": "checks/c02.py, checks/c20.py (and c14, c15, c17, c18)",
      "serves_properties": ["C02", "C20"],
